@@ -1,5 +1,9 @@
 //! helpers shared by harnesses
+use crate::io_stubs::*;
+use apache_avro::decode::decode_internal;
+use apache_avro::encode::encode_internal;
 use apache_avro::schema::{Name, Schema};
+use apache_avro::types::Value;
 use std::collections::HashMap;
 
 pub type Names = HashMap<Name, Schema>;
@@ -12,4 +16,67 @@ pub fn no_names() -> Names {
 /// what CBMC pays most for and no property is about it).
 pub fn leak<T>(t: T) {
     std::mem::forget(t)
+}
+
+/// A `Name` built directly (the public constructor runs the name regex, which is checked
+/// separately by the z3 engine).
+pub fn name(n: &str) -> Name {
+    Name {
+        namespace_and_name: n.to_string(),
+        index_of_name: 0,
+    }
+}
+
+/// decode one datum from `data[..len]`; `Some((value, consumed))` or `None` on `Err`.
+pub fn run_dec<const N: usize>(schema: &Schema, names: &Names, data: [u8; N], len: usize) -> Option<(Value, usize)> {
+    let mut src = Src::new(data, len);
+    match decode_internal(schema, names, None, &mut src) {
+        Ok(v) => Some((v, src.pos)),
+        Err(e) => {
+            leak(e);
+            None
+        }
+    }
+}
+
+/// encode into a total N-byte sink; `Some((bytes, produced, returned))` or `None` on `Err`.
+pub fn run_enc<const N: usize>(v: &Value, schema: &Schema, names: &Names) -> Option<([u8; N], usize, usize)> {
+    let mut sink: Sink<N> = Sink::total();
+    match encode_internal(v, schema, names, None, &mut sink) {
+        Ok(n) => {
+            assert!(!sink.overflow, "harness sink too small");
+            Some((sink.data, sink.len, n))
+        }
+        Err(e) => {
+            leak(e);
+            None
+        }
+    }
+}
+
+/// a Vec of `len` (<= 4) bytes taken from `d`; the allocation size is concrete on every path.
+pub fn vec_upto4(d: [u8; 4], len: usize) -> Vec<u8> {
+    match len {
+        0 => Vec::new(),
+        1 => vec![d[0]],
+        2 => vec![d[0], d[1]],
+        3 => vec![d[0], d[1], d[2]],
+        _ => vec![d[0], d[1], d[2], d[3]],
+    }
+}
+
+pub fn slice_eq(a: &[u8], b: &[u8], n: usize) -> bool {
+    let mut i = 0;
+    while i < n {
+        if a[i] != b[i] {
+            return false;
+        }
+        i += 1;
+    }
+    true
+}
+
+pub fn set_limit(n: usize) {
+    let got = apache_avro::util::max_allocation_bytes(n);
+    assert!(got == n, "first call of max_allocation_bytes did not take effect");
 }
